@@ -297,10 +297,35 @@ def run(ctx):
     finally:
         TM.set_process_tz(old)
         unhook()
+    if ctx.shard == 0:
+        # the shared zone objects the factories hand out are used by every thread of a process: conversions in different
+        # years through one tzstr / tzrange / tzlocal object, from four free-running threads (outcomes compared with the
+        # single-threaded ones, judged against the POSIX evaluator above)
+        from vf import concurrent as CC
+        TM.set_process_tz('EST5EDT,M3.2.0,M11.1.0')
+        try:
+            shared = [tz.tzstr('EST5EDT,M3.2.0,M11.1.0'), tz.tzstr('AEST-10AEDT,M10.1.0,M4.1.0/3'), tz.tzstr('CET-1CEST,M3.5.0,M10.5.0/3'),
+                      tz.tzrange('EST', -18000, 'EDT'), tz.tzrange('AAA', 3600, 'BBB', 9000), tz.tzlocal()]
+            pool = []
+            for zi in range(len(shared)):
+                for y in range(1990, 2030, 3):
+                    for mth, day, h in ((1, 15, 12), (7, 1, 12), (3, 12, 7), (3, 29, 1), (10, 5, 16), (11, 2, 6), (4, 4, 16)):
+                        pool.append((zi, D.datetime(y, mth, day, h, 30, tzinfo=tz.UTC)))
+
+            def conv(a):
+                loc = a[1].astimezone(shared[a[0]])
+                return (loc.replace(tzinfo=None), loc.fold, loc.utcoffset(), loc.tzname(), loc.dst())
+            CC.concurrent_pure(ctx, 'conversions', ['dateutil.tz.tz', 'dateutil.tz._common', 'dateutil.relativedelta'], conv, pool,
+                               10 if ctx.tier == 'quick' else 150, per_thread=40, prob=.2,
+                               render=lambda a: '%r -> zone %r' % (a[1].isoformat(), shared[a[0]]))
+        finally:
+            TM.set_process_tz(old)
 
 
 def floors(agg, tier):
     c, h, out = agg['counters'], agg['hits'], []
+    from vf import concurrent as CC
+    CC.floor(c, 'conversions', 1200, 1000, out)
     n = 100 if tier == 'quick' else 1500
     for k, m in (('zones_tzstr', n), ('zones_tzlocal', n), ('zones_tzrange', n // 2), ('k3_domain_triples', 3), ('fixed_offset_strings', 40),
                  ('malformed_strings', 200), ('malformed_rejected_valueerror', 150), ('oracle_vs_glibc_comparisons', 30000)):
